@@ -2,23 +2,91 @@
    Model: Sort.v (Table.Sort / rowLess / stringLess), Limit.v (Table.Limit, limitCollection, the ORDER BY checker
    rewrite, LIMIT push-down); spec: SortSpec.v (value order, domain D12).  sort.Sort is NOT modelled by one
    algorithm: every theorem below holds for EVERY sorting routine [srt] that meets the documented contract
-   (sorter_ok: permutation; no inversion when Less is a strict weak order); C12_contract_inhabited shows Go's own
+   (sorter_ok: permutation; no inversion when Less is a strict weak order); C12_contract_inhabited_as_found_partial shows Go's own
    insertion sort (used for up to 12 rows) meets it. *)
 From Coq Require Import List ZArith NArith Bool Permutation Sorted String.
 From Coq.Strings Require Import Byte.
 From Coq.Floats Require Import SpecFloat.
 Import ListNotations.
-From BWTable Require Import Cells Fmt StrOrder FmtProofs Sort SortProofs SortSpec SortSpecProofs Limit LimitProofs.
+From BWTable Require Import Cells Fmt StrOrder FmtProofs Sort SortProofs ValueOrder SortSpec SortSpecProofs Limit LimitProofs
+  Reduce Expr Exec ValueEngine ValueEngineProofs.
 Open Scope Z_scope.
 
-(* ---- full -------------------------------------------------------------------------------------------------- *)
+(* ==== THE CURRENT ENGINE: cells are compared BY VALUE (repairs fd030b0 / ca461fe; model ValueOrder.v, ValueEngine.v) ====
+   Everything in this part holds for ALL tables: any mix of cell kinds in a key column, negative and fractional numbers,
+   anchors in any zones and precisions, any text.  The parts further down are about the comparator AS FOUND (formatted
+   strings): the partial theorems with their domain D12 and the refutations outside it. *)
+
+(* ORDER BY and LIMIT never change which rows qualify *)
+Theorem C12_permutation : forall srt c lim rows out, sorter_ok srt ->
+  order_limitv_with srt c lim rows = Ok out -> exists dropped, Permutation rows (out ++ dropped).
+Proof. exact order_limitv_permutation. Qed.
+Print Assumptions C12_permutation.
+
+(* rowLess is a strict weak order on every table, so sort.Sort's contract always applies; Go's insertion sort meets it *)
+Theorem C12_rowless_strict_weak : forall ks (rows : list row), strict_weak_on (row_ltv ks) rows.
+Proof. exact row_ltv_strict_weak. Qed.
+Print Assumptions C12_rowless_strict_weak.
+
+Theorem C12_contract_inhabited : forall ks rows, sort_contract (row_ltv ks) rows (go_isort (row_ltv ks) rows).
+Proof. exact go_isort_contract_row_ltv. Qed.
+Print Assumptions C12_contract_inhabited.
+
+(* FULL: the result is a permutation in VALUE order, keys in sequence, each in its direction; it exists whenever every
+   row has the key bindings *)
+Theorem C12_sorted : forall srt ks rows out, sorter_ok srt ->
+  order_byv_with srt (Some ks) rows = Ok out -> Permutation rows out /\ value_sorted ks out.
+Proof. exact order_byv_sorted. Qed.
+Print Assumptions C12_sorted.
+
+Theorem C12_sorted_total : forall srt ks rows, forallb (has_keys ks) rows = true ->
+  exists out, order_byv_with srt (Some ks) rows = Ok out.
+Proof. exact order_byv_total. Qed.
+Print Assumptions C12_sorted_total.
+
+(* ... and ORDER BY + LIMIT n is the first min(n, N) rows of such a value-sorted permutation *)
+Theorem C12_limit_of_sorted : forall srt ks n rows, sorter_ok srt -> 0 <= n ->
+  forallb (has_keys ks) rows = true ->
+  exists sorted, Permutation rows sorted /\ value_sorted ks sorted /\
+    order_limitv_with srt (Some ks) (Some n) rows = Ok (firstn (Z.to_nat (Z.min n (Z.of_nat (List.length rows)))) sorted).
+Proof. exact order_limitv_sorted_prefix. Qed.
+Print Assumptions C12_limit_of_sorted.
+
+(* what value order is, kind by kind: int64 numerically, float64 numerically (order of f64_key: NaN first, -0 = 0),
+   time anchors as instants, text by its characters, blob by its bytes, strings / nodes / predicates by printed form *)
+Theorem C12_value_order_meaning :
+  (forall x y sx cx sy cy, cell_cmp (CL (mkLit (VInt x) sx cx)) (CL (mkLit (VInt y) sy cy)) = Z.compare x y) /\
+  (forall x y sx cx sy cy, cell_cmp (CL (mkLit (VText x) sx cx)) (CL (mkLit (VText y) sy cy)) = str_compare x y) /\
+  (forall x y sx cx sy cy, cell_cmp (CL (mkLit (VBlob x) sx cx)) (CL (mkLit (VBlob y) sy cy)) = str_compare x y) /\
+  (forall x y sx cx sy cy, cell_cmp (CL (mkLit (VFloat x) sx cx)) (CL (mkLit (VFloat y) sy cy)) = Z.compare (f64_key x) (f64_key y)) /\
+  (forall a b, cell_cmp (CT a) (CT b) = Z.compare (t_ns a) (t_ns b)) /\
+  (forall a b, cell_cmp (CS a) (CS b) = str_compare a b /\ cell_cmp (CN a) (CN b) = str_compare a b /\
+               cell_cmp (CP a) (CP b) = str_compare a b).
+Proof. exact cell_cmp_meaning. Qed.
+Print Assumptions C12_value_order_meaning.
+
+(* repeated ORDER BY keys (repair 67e0e70): the rebuilt configuration compares any two rows as the written key list *)
+Theorem C12_repeated_keys_fixed : forall outs keys cfg,
+  order_by_checker (fun l => l) outs keys = inr cfg -> forall a b, row_cmpv cfg a b = row_cmpv keys a b.
+Proof. exact order_by_checker_same_value_order. Qed.
+Print Assumptions C12_repeated_keys_fixed.
+
+(* the guarded LIMIT push-down (repair e34ecad) cannot be observed *)
+Theorem C12_pushdown_unobservable : forall srt mask c lim rows,
+  (forall m, mask = Some m -> List.length m = List.length rows) ->
+  exec_order_limitv_with srt true mask c lim rows = order_limitv_with srt c lim rows.
+Proof. exact guarded_pushdown_unobservable_v. Qed.
+Print Assumptions C12_pushdown_unobservable.
+
+(* ==== LIMIT (unchanged by the repair) and THE COMPARATOR AS FOUND =================================================== *)
+
 
 (* ORDER BY and LIMIT never change which rows qualify: the result is a prefix of a permutation of the input rows
    (whatever the key kinds, whatever the sorting routine). *)
-Theorem C12_permutation : forall srt c lim rows out, sorter_ok srt ->
+Theorem C12_permutation_as_found : forall srt c lim rows out, sorter_ok srt ->
   order_limit_with srt c lim rows = Ok out -> exists dropped, Permutation rows (out ++ dropped).
 Proof. exact order_limit_permutation. Qed.
-Print Assumptions C12_permutation.
+Print Assumptions C12_permutation_as_found.
 
 (* LIMIT n (n >= 0) keeps exactly the first min(n, N) rows of what it is given *)
 Theorem C12_limit_prefix : forall n (rows : list row), 0 <= n ->
@@ -40,34 +108,34 @@ Print Assumptions C12_limit_no_panic.
 
 (* rowLess is a strict weak order as soon as every key column holds cells of one kind (the hypothesis under which
    sort.Sort promises anything) *)
-Theorem C12_rowless_strict_weak : forall ks rows, homogeneous ks rows = true -> strict_weak_on (row_lt ks) rows.
+Theorem C12_rowless_strict_weak_as_found_partial : forall ks rows, homogeneous ks rows = true -> strict_weak_on (row_lt ks) rows.
 Proof. exact row_lt_strict_weak. Qed.
-Print Assumptions C12_rowless_strict_weak.
+Print Assumptions C12_rowless_strict_weak_as_found_partial.
 
 (* the contract is inhabited: Go's insertionSort, as modelled, meets it for rowLess on homogeneous tables *)
-Theorem C12_contract_inhabited : forall ks rows, homogeneous ks rows = true ->
+Theorem C12_contract_inhabited_as_found_partial : forall ks rows, homogeneous ks rows = true ->
   sort_contract (row_lt ks) rows (go_isort (row_lt ks) rows).
 Proof. exact go_isort_contract_row_lt. Qed.
-Print Assumptions C12_contract_inhabited.
+Print Assumptions C12_contract_inhabited_as_found_partial.
 
 (* ---- partial: the comparable domain D12 ------------------------------------------------------------------------ *)
 
 (* Key columns in D12 (one kind per column; int64 >= 0; text without bytes <= 0x22; bool, blob, node, predicate and
    string cells by printed form without outer white space): the result is a permutation sorted BY VALUE
    (int64 numerically, text by characters, the others by printed form), keys in sequence, each in its direction. *)
-Theorem C12_sorted_partial : forall srt ks rows out, sorter_ok srt -> ks <> [] ->
+Theorem C12_sorted_as_found_partial : forall srt ks rows out, sorter_ok srt -> ks <> [] ->
   d12 ks rows = true -> order_by_with srt (Some ks) rows = Ok out ->
   Permutation rows out /\ spec_sorted ks out.
 Proof. exact order_by_sorted_d12. Qed.
-Print Assumptions C12_sorted_partial.
+Print Assumptions C12_sorted_as_found_partial.
 
 (* ... and ORDER BY + LIMIT n returns the first min(n, N) rows of such a value-sorted permutation *)
-Theorem C12_limit_of_sorted_partial : forall srt ks n rows, sorter_ok srt -> ks <> [] -> 0 <= n ->
+Theorem C12_limit_of_sorted_as_found_partial : forall srt ks n rows, sorter_ok srt -> ks <> [] -> 0 <= n ->
   d12 ks rows = true ->
   exists sorted, Permutation rows sorted /\ spec_sorted ks sorted /\
     order_limit_with srt (Some ks) (Some n) rows = Ok (firstn (Z.to_nat (Z.min n (Z.of_nat (List.length rows)))) sorted).
 Proof. exact order_limit_sorted_prefix_d12. Qed.
-Print Assumptions C12_limit_of_sorted_partial.
+Print Assumptions C12_limit_of_sorted_as_found_partial.
 
 Definition one_col' (cells : list cell) : list row := map (fun c => [(1%N, c)]) cells.
 
@@ -76,7 +144,7 @@ Definition one_col' (cells : list cell) : list row := map (fun c => [(1%N, c)]) 
    has no outer white space.  D12 then also admits key columns of anchors whose printed form is that rendering, all in
    one zone and of one length (tm_ok_o / tm_pair_o).  The law is an ORACLE about time.Format: it is checked on every
    generated case by the correspondence (value order of every such table) and shown consistent below. *)
-Theorem C12_sorted_time_partial : forall (fmt_time : Z -> Z -> str),
+Theorem C12_sorted_time_as_found_partial : forall (fmt_time : Z -> Z -> str),
   (forall off n1 n2, in_int64 n1 = true -> in_int64 n2 = true ->
      List.length (fmt_time n1 off) = List.length (fmt_time n2 off) ->
      str_compare (fmt_time n1 off) (fmt_time n2 off) = Z.compare n1 n2) ->
@@ -85,11 +153,11 @@ Theorem C12_sorted_time_partial : forall (fmt_time : Z -> Z -> str),
   d12_gen (tm_ok_o fmt_time) tm_pair_o no_lit ks rows = true -> order_by_with srt (Some ks) rows = Ok out ->
   Permutation rows out /\ spec_sorted ks out.
 Proof. exact order_by_sorted_d12_time. Qed.
-Print Assumptions C12_sorted_time_partial.
+Print Assumptions C12_sorted_time_as_found_partial.
 
 (* ... and float64 NUMERICALLY on the domain "finite, 0 <= f < 10^25, at most six decimals" under the analogous law for
    %032f (oracle; checked on every generated case; no Gallina instance, so the consistency of THIS law is not shown) *)
-Theorem C12_sorted_time_float_partial : forall (fmt_time : Z -> Z -> str) (fmt_float : spec_float -> str),
+Theorem C12_sorted_time_float_as_found_partial : forall (fmt_time : Z -> Z -> str) (fmt_float : spec_float -> str),
   (forall off n1 n2, in_int64 n1 = true -> in_int64 n2 = true ->
      List.length (fmt_time n1 off) = List.length (fmt_time n2 off) ->
      str_compare (fmt_time n1 off) (fmt_time n2 off) = Z.compare n1 n2) ->
@@ -101,7 +169,7 @@ Theorem C12_sorted_time_float_partial : forall (fmt_time : Z -> Z -> str) (fmt_f
   d12_o fmt_time fmt_float ks rows = true -> order_by_with srt (Some ks) rows = Ok out ->
   Permutation rows out /\ spec_sorted ks out.
 Proof. exact order_by_sorted_d12_oracles. Qed.
-Print Assumptions C12_sorted_time_float_partial.
+Print Assumptions C12_sorted_time_float_as_found_partial.
 
 (* the time law is consistent and the extended D12 is inhabited: a toy rendering satisfies the law, and a table with a
    descending anchor column rendered by it is in D12 and gets sorted chronologically *)
@@ -132,6 +200,23 @@ Example C12_d12_nonvacuous :
   d12 ex_keys ex_rows = true /\
   order_by (Some ex_keys) ex_rows = Ok [nth 1 ex_rows []; nth 2 ex_rows []; nth 0 ex_rows []].
 Proof. vm_compute. split; reflexivity. Qed.
+
+(* the witnesses of the refutations below, sorted by the CURRENT engine: -5 before -3, 2e29 before 1e30, the earlier
+   instant first whatever the zone, "ab" before "ab c" before "ab!" (bytewise) *)
+Definition one_col0 (cells : list cell) : list row := map (fun c => [(1%N, c)]) cells.
+Example C12_witnesses_now_sorted :
+  order_byv (Some [mkKey 1%N false]) (one_col0 [CL (int_lit (-3)); CL (int_lit (-5))]) =
+    Ok (one_col0 [CL (int_lit (-5)); CL (int_lit (-3))]) /\
+  order_byv (Some [mkKey 1%N false]) (one_col0 [CL (text_lit (list_byte_of_string "ab c"));
+        CL (text_lit (list_byte_of_string "ab!")); CL (text_lit (list_byte_of_string "ab"))]) =
+    Ok (one_col0 [CL (text_lit (list_byte_of_string "ab")); CL (text_lit (list_byte_of_string "ab c"));
+                  CL (text_lit (list_byte_of_string "ab!"))]) /\
+  order_byv (Some [mkKey 1%N false])
+     (one_col0 [CT (mkTim 1577835000000000000 0 (list_byte_of_string "2019-12-31T23:30:00Z"));
+                CT (mkTim 1577833200000000000 3600 (list_byte_of_string "2020-01-01T00:00:00+01:00"))]) =
+    Ok (one_col0 [CT (mkTim 1577833200000000000 3600 (list_byte_of_string "2020-01-01T00:00:00+01:00"));
+                  CT (mkTim 1577835000000000000 0 (list_byte_of_string "2019-12-31T23:30:00Z"))]).
+Proof. vm_compute. repeat split; reflexivity. Qed.
 
 (* ---- refuted outside D12 (each witness is replayed on the real engine by checks/c12.py) ------------------------ *)
 Definition one_col (cells : list cell) : list row := map (fun c => [(1%N, c)]) cells.
@@ -221,18 +306,18 @@ Print Assumptions C12_repeated_keys_refuted.
 
 (* after repair 67e0e70 the configuration keeps the first occurrence of each key in written order ([perm] is the
    identity), and that configuration compares any two rows exactly as the written key list does *)
-Theorem C12_repeated_keys_fixed : forall outs keys cfg,
+Theorem C12_repeated_keys_fixed_as_found : forall outs keys cfg,
   order_by_checker (fun l => l) outs keys = inr cfg -> forall a b, key_cmp cfg a b = key_cmp keys a b.
 Proof. exact order_by_checker_same_order. Qed.
-Print Assumptions C12_repeated_keys_fixed.
+Print Assumptions C12_repeated_keys_fixed_as_found.
 
 (* LIMIT push-down after repair e34ecad (only without ORDER BY and when every retrieved triple becomes one row): the
    result is the one computed without any push-down *)
-Theorem C12_pushdown_unobservable : forall srt mask c lim rows,
+Theorem C12_pushdown_unobservable_as_found : forall srt mask c lim rows,
   (forall m, mask = Some m -> List.length m = List.length rows) ->
   exec_order_limit_with srt true mask c lim rows = order_limit_with srt c lim rows.
 Proof. exact guarded_pushdown_unobservable. Qed.
-Print Assumptions C12_pushdown_unobservable.
+Print Assumptions C12_pushdown_unobservable_as_found.
 
 (* LIMIT push-down AS FOUND: single full-scan clause, ORDER BY ?o DESC LIMIT 1 returns the row the DRIVER lists first, not the
    largest *)
